@@ -97,7 +97,7 @@ def main(ctx):
     summ = ctx.add_results(res)
     if summ["checked"] != len(a) + len(s):
         raise vlib.Inconclusive("replayed %d of %d cases" % (summ["checked"], len(a) + len(s)))
-    for need in ("sort", "rebatch", "filter", "divide", "distribute", "concat", "pair", "sched", "sched/reproduced"):
+    for need in ("sort", "rebatch", "filter", "divide", "distribute", "concat", "pair", "fragments", "merge", "sched", "sched/reproduced"):
         ctx.expect_vacuity("class " + need, ctx.classes.get(need, 0))
     if ctx.classes.get("sched/unreached", 0) > len(s) // 4:
         raise vlib.Inconclusive("too many schedules could not be forced on the real pool: %s" % ctx.classes)
